@@ -39,6 +39,20 @@ Proof. exact ibin_simulates. Qed.
 Theorem C05_ibinom_simulates : C05_ibinom_full.
 Proof. exact ibinom_simulates. Qed.
 
+(** Indexed Fibonacci heap, proved part: every run of the model that does not end in a panic or
+    a hang is a valid trace (index map, heap order, the entry pointer is extremal after every
+    operation, cut / cascading cut / consolidate keep the entries).  Missing for
+    [C05_ifib_full]: that the model never returns [Panic] (the degree bound
+    size >= F_{degree+2} under cuts, which keeps [roots[x.degree]] of consolidate in range) nor
+    [Hang] (the fuel of consolidate's restart loop).  Both are checked at run time instead: the
+    driver reports any PANIC/HANG of the extracted model on every generated history. *)
+Theorem C05_ifib_partial :
+  forall cmp, TotalOrder cmp ->
+  forall (cap : nat) (ops : list op) (outs : list out),
+    run cmp IFib cap ops = Ok outs ->
+    length outs = length ops /\ valid_trace cmp (empty_map cap) (combine ops outs).
+Proof. exact ifib_partial. Qed.
+
 (** Out-of-range indices are rejected with a false result rather than a crash, in every state
     of every implementation (reachable or not), leaving the state unchanged. *)
 Theorem C05_out_of_range_rejected :
@@ -64,4 +78,5 @@ Proof. vm_compute. reflexivity. Qed.
 
 Print Assumptions C05_ibin_simulates.
 Print Assumptions C05_ibinom_simulates.
+Print Assumptions C05_ifib_partial.
 Print Assumptions C05_out_of_range_rejected.
